@@ -400,6 +400,19 @@ func generate(rnd *rand.Rand, thorough bool) []*Prog {
 		}
 	}
 	// dedupe identical programs
+	// --- capacity from the maximum (WithMemoryCapacityFromMax): with the moving guarded allocator the memory still
+	// moves on every growth; every template that grows, calls or loops, once more under that option
+	n0 := len(out)
+	for _, q := range out[:n0] {
+		if q.Pages < 1 || q.Pages > 2 || !q.Alloc || q.Mem != "" || q.CFM {
+			continue
+		}
+		if strings.Contains(q.Tmpl, "grow") || strings.HasPrefix(q.Tmpl, "loop") || strings.HasPrefix(q.Tmpl, "cbcall") || strings.HasPrefix(q.Tmpl, "constcall") || strings.HasPrefix(q.Tmpl, "ifcall") || strings.HasPrefix(q.Tmpl, "x") {
+			c := *q
+			c.Tmpl, c.CFM = q.Tmpl+"/cfm", true
+			out = append(out, &c)
+		}
+	}
 	seen := map[string]bool{}
 	var ded []*Prog
 	for _, p := range out {
